@@ -27,7 +27,7 @@ SPEC = dict(
     ],
     required=["test:accepted", "test:rejected", "update:accepted", "update:rejected", "setver:equal:rejected",
               "setver:lower:rejected", "setver:malformed:rejected", "setver:pep-equal:rejected", "korder_checked",
-              "update_scope:default", "update_scope:global", "update_scope:branch", "fetch_failure_cases", "bad_date_cases"],
+              "update_scope:default", "update_scope:global", "update_scope:branch", "fetch_failure_cases", "bad_date_cases", "updates_with_a_pattern_that_cannot_be_found"],
     anchors=[("cli", "_is_valid_version"), ("v2version", "incr"), ("cli", "update"), ("cli", "test")],
 )
 
@@ -227,6 +227,17 @@ def run_update(ctx, case, R, tdy):
                                      commit_cfg={"tag_scope": cfg_scope} if cfg_scope else None)
     if proj is None:
         raise harness.Skip(why)
+    must_fail = None
+    if case["seed"] % 8 == 3:
+        # "in every other case": a configuration with a pattern that can never be found (a bare `{version}` listed after
+        # `rev {version};` - every match lies inside the other's) makes the rewrite fail, whatever the arguments are
+        from bvmon.checks.C06 import shadowed_variant
+        for fn in sorted(proj.files):
+            sh = shadowed_variant(proj, fn, mods, R)
+            if sh is not None:
+                proj, must_fail = sh, fn
+                ctx.count("updates_with_a_pattern_that_cannot_be_found")
+                break
     ast = ref.parse_pattern(proj.vp)
     names = list(ref.parts_in(ast))
     st, old_text = proj.cur_state, proj.cur_text
@@ -319,6 +330,9 @@ def run_update(ctx, case, R, tdy):
         judge(ctx, "update", case, ast, logged_old if logged_old is not None else start_text, res, announced, cls,
               (ref.shape(ast), flagkey, dry, fake is not None),
               {"argv": args, "exit": res.exit_code, "announced": announced, "start": start_text, "vp": proj.vp})
+        if must_fail and res.exit_code == 0:
+            ctx.violation("other:update_succeeds_although_a_pattern_cannot_be_found", f"{args}: exit 0 ({must_fail})",
+                          observed=dict(res=res.brief(), project=proj.describe()))
         if bad_date and res.exit_code == 0:
             ctx.violation("other:bad_date_argument_accepted", f"{args}: exit 0", observed=res.brief())
         changed = harness.diff_snapshots(before, after)
